@@ -150,8 +150,11 @@ func normalizeRetryAfter(
 	switch retryAfterType {
 
 	case sharedConfig.RetryAfterAbsoluteEpoch:
-		now := clock.Now().Unix()
-		return retryAfterNum - float64(now), nil
+		// keep the sub-second part of the clock: with whole seconds only, the
+		// stored response would outlive the provider's instant by up to 1s
+		now := clock.Now()
+		return retryAfterNum - float64(now.Unix()) -
+			float64(now.Nanosecond())/float64(time.Second), nil
 
 	case sharedConfig.RetryAfterRelativeSeconds:
 		return retryAfterNum, nil
